@@ -224,6 +224,27 @@ func c20Drive(args []string) int {
 		res, err := v21.JavaScript(nil, "JSON.stringify(v)", "v", a.v)
 		calls = append(calls, M{"ev": "value", "tr": 1000 + len(calls), "kind": "argument", "script": fmt.Sprint(a.v), "expected": a.want, "got": fmt.Sprint(res, errStr(err))})
 	}
+	// scripts that differ only in white space *inside a literal* are different scripts: each must give its own result,
+	// in either order, with the program cache warm
+	for _, pr := range [][2]string{{"a + '  ' + b", "a + ' ' + b"}, {"(a + ' x').split('  ').length", "(a + ' x').split(' ').length"},
+		{"'l1\\n  l2'.length", "'l1\\n l2'.length"}, {"/a  b/.test('a  b')", "/a b/.test('a  b')"}} {
+		wants := [2]string{}
+		for k := 0; k < 2; k++ { // the expectation: what the script yields on its own with caching off
+			v21.VerifSetDisableCaching(true)
+			r0, e0 := v21.JavaScript(nil, pr[k], "a", "p", "b", "q")
+			v21.VerifSetDisableCaching(false)
+			wants[k] = fmt.Sprint(r0, errStr(e0))
+		}
+		for _, order := range [][2]int{{0, 1}, {1, 0}} {
+			v21.VerifResetCaches()
+			for _, k := range order {
+				res, err := v21.JavaScript(nil, pr[k], "a", "p", "b", "q")
+				calls = append(calls, M{"ev": "value", "tr": 1000 + len(calls), "kind": "argument", "script": fmt.Sprintf("%q (after its white-space twin: %v)", pr[k], k == order[1]),
+					"expected": wants[k], "got": fmt.Sprint(res, errStr(err))})
+				sum.eval(true, M{"twin": pr[k], "o": order})
+			}
+		}
+	}
 	// ... also on the way through a schema: typed declarations as named arguments (zero values are values, not "absent")
 	argSchema := `{"parser_settings": {"version": "omni.2.1", "file_format_type": "json"},
  "transform_declarations": {"FINAL_OUTPUT": {"xpath": "/*", "object": {
